@@ -228,16 +228,14 @@ def oracle(c, out):
         if kind == "seek":
             wh = 0 if o[3] is None else o[3]
             if wh not in (0, 1, 2):
-                if not failed:
-                    pass                        # from_what outside 0/1/2: the property says nothing
-            else:
-                if failed:
-                    fail("seek-fails", "seek on a live view gave %r" % (res,), i)
-                v["pos"] = {0: o[2], 1: pos + o[2], 2: n + o[2]}[wh]       # a file's SEEK_END: len + n
-                if wh == 2 and o[2] != 0 and probe is not None and probe == n - o[2] and probe != v["pos"]:
-                    fail("seek-end-sign", "seek(%d, 2) on a view of %d bytes left tell() == %d; a file's "
-                         "position is %d" % (o[2], n, probe, v["pos"]), i)
-                    v["pos"] = probe            # resynchronise: report this finding once, keep checking
+                continue                        # from_what outside 0/1/2: the property says nothing
+            if failed:
+                fail("seek-fails", "seek on a live view gave %r" % (res,), i)
+            v["pos"] = {0: o[2], 1: pos + o[2], 2: n + o[2]}[wh]           # a file's SEEK_END: len + n
+            if wh == 2 and o[2] != 0 and probe is not None and probe == n - o[2] and probe != v["pos"]:
+                fail("seek-end-sign", "seek(%d, 2) on a view of %d bytes left tell() == %d; a file's "
+                     "position is %d" % (o[2], n, probe, v["pos"]), i)
+                v["pos"] = probe                # resynchronise: report this finding once, keep checking
         elif kind == "read":
             req = -1 if o[2] is None else o[2]
             avail = max(0, n - pos) if pos >= 0 else 0
@@ -279,8 +277,7 @@ def oracle(c, out):
                 fail("slice-length", "view[%r:%r] of %d bytes has len() %d, the clipped sub-range has %d" % (
                     o[2], o[3], n, res[3], e - s), i)
             if o[5] is not None:
-                views.append(nv)
-            continue                            # (probe is the parent's position: unchanged, checked below)
+                views.append(nv)                # (the probe is the sliced view's position: unchanged)
         elif kind == "tell":
             if res != ["int", pos]:
                 fail("tell", "tell() gave %r at position %d" % (res, pos), i)
@@ -288,8 +285,8 @@ def oracle(c, out):
             if res != ["int", n]:
                 fail("len", "len() gave %r for a view of %d bytes" % (res, n), i)
         elif kind == "address":
-            if res != ["addr", vs + pos]:
-                fail("address", "address gave %r at position %d of the view at %d" % (res, pos, vs), i)
+            if failed:                          # (its value is compared with the model only: not a file operation)
+                fail("address-fails", "address of a live view gave %r" % (res,), i)
         elif kind == "flush":
             if failed:
                 fail("flush-fails", "flush on a live view gave %r" % (res,), i)
@@ -297,8 +294,6 @@ def oracle(c, out):
             if failed:
                 fail("close-fails", "close of a live view gave %r" % (res,), i)
             v["closed"] = True
-            continue
-        if kind in ("seek",) and (0 if o[3] is None else o[3]) not in (0, 1, 2):
             continue
         if probe is None:
             fail("live-view-fails", "tell() after %s on a live view failed" % kind, i)
